@@ -2,6 +2,7 @@
 import common
 import enccommon
 import gen
+import corpus
 import refdec
 import refenc
 from enccommon import model_line, canon_impl, ints
@@ -12,13 +13,26 @@ RULE = ('data::encode on structured inputs (capacity-boundary lengths first) x s
         'needs; (2) for inputs up to 48 bytes an exact search (tools/props/refenc.best_stream: reachability over position x codewords '
         'used x mode sub-state, every legal segmentation and end-of-data form) looks for a legal stream in any smaller listed '
         'capacity; a hit is re-validated by the reference decoder before it is reported; non-trivial = input of >= 4 bytes; codec-constant and single-symbol-list boundary families as in C02')
-THEOREMS = 'C10_first_fit, C10_greedy_optimal, C10_ascii_only_minimal, C10_order_is_capacity, C10_exact_fit_refuted, C10_refusal_refuted'
+THEOREMS = 'C10_first_fit, C10_greedy_optimal, C10_ascii_only_minimal, C10_order_is_capacity, C10_exact_fit_refuted, C10_refusal_refuted, C10_base256_only_minimal, C10_strike_refuted, C10_strike_refusal_refuted'
 ASSUMPTIONS = ['refenc.py / refdec.py are independent readings of ISO/IEC 16022 5.2',
                'the exact search is bounded to short inputs (quick: <= 32 bytes, thorough: <= 48) and to 400000 search states']
 
 
 def gen_cases(rng, tier, ctx):
-    cs = []
+    cs = [c for c in corpus.encoder_cases() if len(c['cfg']['data']) <= 48 and c['cfg']['eci'] is None]
+    # C40 / Text runs of base-set characters that end in a stretch of 1..6 digits followed by characters outside the base set
+    # (where the planner's "unbeatable strike" hides the switch at the start of the digits), all sizes and short lists
+    for _ in range(150 if tier == 'quick' else 1500):
+        mode = rng.choice(['text', 'c40'])
+        letters = list(range(97, 123)) if mode == 'text' else list(range(65, 91))
+        other = list(range(65, 91)) if mode == 'text' else list(range(97, 123))
+        d = [rng.choice(letters + [48 + rng.below(10)]) for _ in range(3 * rng.range(1, 6) + rng.below(3))]
+        d += [48 + rng.below(10) for _ in range(rng.range(1, 6))]
+        d += [rng.choice(other + [33, 64, 200, 13]) for _ in range(rng.range(1, 3))]
+        d += [48 + rng.below(10) for _ in range(rng.below(4))]
+        wl = gen.ALL48 if rng.chance(1, 2) else gen.rand_list(rng)
+        cs.append({'line': gen.encode_line(d, wl, 63, False, False, None), 'cat': 'strike',
+                   'cfg': dict(data=d, wl=wl, modes=63, macros=False, fnc1=False, eci=None)})
     n = 1500 if tier == 'quick' else 20000
     maxlen = 32 if tier == 'quick' else 48
     for _ in range(n):
@@ -138,6 +152,7 @@ def check_impl(c, out, ctx, prof):
                     fit = 'exact-fit' if rd['pad_start'] is None else 'padded'
                     if fit == 'exact-fit' and rd['implicit']:
                         fit = 'exact-fit-end-form'      # the witness ends a run without unlatch at the symbol end
+                    enc_stream = dcw if sym is not None else None
                     if sym is None:
                         # how long is the encoder's own stream when every size is available?
                         line = gen.encode_line(d, gen.ALL48, m, cfg.get('macros', False), cfg.get('fnc1', False), None)
@@ -147,9 +162,68 @@ def check_impl(c, out, ctx, prof):
                             r2 = refdec.decode(d2)
                             u2 = len(d2) if r2['error'] or r2['pad_start'] is None else r2['pad_start']
                             gap = 'refused gap_all=%d' % (u2 - cap)
-                    return 'a legal stream of %d codewords exists (%s), encoder %s [gap=%s witness=%s]' % (
-                        cap, ','.join(map(str, s[:60])), 'refused the data' if sym is None else 'used %d' % sp[sym]['data'], gap, fit)
+                            enc_stream = d2
+                    strike = strike_flag(d, s, enc_stream) if enc_stream is not None and not pre else 0
+                    return 'a legal stream of %d codewords exists (%s), encoder %s [gap=%s witness=%s strike-blocked=%d]' % (
+                        cap, ','.join(map(str, s[:60])), 'refused the data' if sym is None else 'used %d' % sp[sym]['data'], gap, fit, strike)
     return None
+
+
+
+def _base_set(mode, ch):
+    if ch == 32 or 48 <= ch <= 57:
+        return True
+    return 65 <= ch <= 90 if mode == 'C40' else 97 <= ch <= 122
+
+
+def _strike(mode, rest):
+    """planner/c40.rs unbeatable_strike: base-set characters ahead, cut before a run of 7 digits, rounded down to triples"""
+    digits = reads = 0
+    for ch in rest:
+        if not _base_set(mode, ch):
+            break
+        reads += 1
+        if 48 <= ch <= 57:
+            digits += 1
+            if digits == 7:
+                reads -= digits
+                break
+        else:
+            digits = 0
+    return reads // 3 * 3
+
+
+def strike_blocks(d, mode, start, at):
+    """does the C40/Text plan that entered `mode` at data offset `start` treat the character at offset `at` as part of
+    an unbeatable strike (so that no switch out of the mode is considered there)?  Simulation of C40LikePlan::step."""
+    values = ur = 0
+    for idx in range(start, min(at, len(d) - 1) + 1):
+        if values == 0 and ur == 0:
+            ur = _strike(mode, d[idx:])
+        if idx == at:
+            return ur > 0
+        if ur > 0:
+            values += 1
+            ur -= 1
+        else:
+            values += len(refenc.c40_values(d[idx], text=(mode == 'Text')))
+        values %= 3
+    return False
+
+
+def strike_flag(d, witness, enc_dcw):
+    """1 if the witness leaves a C40/Text run (explicit unlatch, data continues) at an offset where the encoder's stream is still
+    inside a run of the same mode and the planner's unbeatable-strike heuristic suppresses the switch"""
+    rw = refdec.decode(witness)
+    re_ = refdec.decode(enc_dcw)
+    if rw['error'] or re_['error']:
+        return 0
+    for mode, a, b in rw['spans']:
+        if mode in ('C40', 'Text') and b < len(d):
+            for m2, a2, b2 in re_['spans']:
+                if m2 == mode and a2 <= b < b2 and strike_blocks(d, mode, a2, b):
+                    return 1
+    return 0
 
 
 def classify(c, out, why):
@@ -159,6 +233,10 @@ def classify(c, out, why):
         return 'C10-exact-fit'
     if 'a legal stream of' in why and 'witness=exact-fit-end-form' in why and ('gap=refused gap_all=1 ' in why or 'gap=refused gap_all=2 ' in why):
         return 'C10-exact-fit-refusal'
+    if 'a legal stream of' in why and 'witness=exact-fit strike-blocked=1' in why and ('gap=1 ' in why or 'gap=2 ' in why):
+        return 'C10-unbeatable-strike'
+    if 'a legal stream of' in why and 'witness=exact-fit strike-blocked=1' in why and ('gap=refused gap_all=1 ' in why or 'gap=refused gap_all=2 ' in why):
+        return 'C10-unbeatable-strike-refusal'
     if 'ASCII/Base256 segmentation needs' in why and 'ab-gap=1 long-field=1' in why:
         return 'C10-base256-run-length'
     if 'ASCII/Base256 segmentation needs' in why and 'ab-gap=refused gap_all=1 long-field=1' in why:
